@@ -863,6 +863,9 @@ func (m *c11Model) a5Results(locs *c11Locs) {
 			if len(ev.rhs.xs) == 2 && ev.rhs.xs[1].k == "nil" && ev.rhs.xs[0].key() == ev.lhs.key() {
 				continue // results[i] = append(results[i], nil...): nothing changes
 			}
+			if len(ev.rhs.xs) == 2 && ev.rhs.xs[1].key() == ev.lhs.key() && ev.rhs.xs[0].k == "call" && strings.HasPrefix(ev.rhs.xs[0].name, "make@") {
+				continue // results[i] = append(make(...), results[i]...): the slot is replaced by a copy of itself
+			}
 			nStore++
 			stored = true
 			pos = ev.node.Pos()
